@@ -5,6 +5,7 @@
 //    integer bit patterns) -- template recursion over the layer templates, so any stack of the grammar works.
 //  * FaultBuf: a std::streambuf over a byte string that can end early ("cut k"), make the n-th read call come back
 //    short / half-filled, or throw from inside the read.
+#include "arr_access.hpp"
 #include <covfie/core/backend/primitive/array.hpp>
 #include <covfie/core/backend/primitive/constant.hpp>
 #include <covfie/core/backend/primitive/identity.hpp>
@@ -77,12 +78,13 @@ template <typename V, typename I> struct IOX<backend::array<V, I>> {
   static typename L::owning_data_t make(Tok & t) {
     t.expect("A"); (void)t.num(); u64 count = t.num(); auto cells = t.list(count * M);
     typename L::owning_data_t o(static_cast<std::size_t>(count));
-    for (u64 i = 0; i < count; ++i) for (std::size_t q = 0; q < M; ++q) o.m_ptr[i][q] = fromb<T>(cells[i * M + q]);
+    for (u64 i = 0; i < count; ++i) for (std::size_t q = 0; q < M; ++q) vf::arr_data(o)[i][q] = fromb<T>(cells[i * M + q]);
     return o;
   }
   static void show(const typename L::owning_data_t & o, std::ostream & os) {
-    os << "A " << sizeof(T) << " " << o.m_size << " " << o.m_size * M;
-    for (u64 i = 0; i < o.m_size; ++i) for (std::size_t q = 0; q < M; ++q) os << " " << tob(o.m_ptr[i][q]);
+    const u64 n = vf::arr_size(o);
+    os << "A " << sizeof(T) << " " << n << " " << n * M;
+    for (u64 i = 0; i < n; ++i) for (std::size_t q = 0; q < M; ++q) os << " " << tob(vf::arr_data(o)[i][q]);
   }
 };
 template <typename VI, typename VO> struct IOX<backend::constant<VI, VO>> {
